@@ -880,10 +880,23 @@ def check_index_tables(ck, R):
     se = FA(ck, PM.PICKLE_PARTITION + "._serialize_index")
     de = FA(ck, PM.PICKLE_PARTITION + "._deserialize_index")
     enc = set()
-    for d in [n for n in A.walk_body(se.node) if isinstance(n, ast.Dict)]:
-        for k in d.keys:
-            if A.const_str(k):
-                enc.add(A.const_str(k))
+    enc_values = []
+    for n in A.walk_body(se.node):
+        if isinstance(n, ast.Dict):
+            for k, v in zip(n.keys, n.values):
+                if A.const_str(k):
+                    enc.add(A.const_str(k))
+                    enc_values.append(v)
+        elif isinstance(n, ast.Call) and isinstance(n.func, ast.Name) and n.func.id == "dict" and n.keywords and not n.args:
+            # dict(result_type=..., ...)
+            for k in n.keywords:
+                if k.arg:
+                    enc.add(k.arg)
+                    enc_values.append(k.value)
+        elif isinstance(n, ast.Assign) and len(n.targets) == 1 and isinstance(n.targets[0], ast.Subscript) and A.const_str(n.targets[0].slice):
+            # entry["result_type"] = ...
+            enc.add(A.const_str(n.targets[0].slice))
+            enc_values.append(n.value)
     dec = set()
     # the per-entry variable: any name bound by a loop / comprehension over the decoded mapping
     ev = set()
@@ -902,8 +915,7 @@ def check_index_tables(ck, R):
     ctor = [c for c in de.calls("_ResultTypeAndContentKey")]
     ef = PM.entry_fields(ctor[0], PM.entry_type_fields(ck)) if len(ctor) == 1 else None
     okc = ef is not None and "ResultType[" in A.norm(ef["result_type"]) and "decode_versioned_data_source_key" in A.norm(ef["content_key"])
-    encn = any(".name" in A.norm(v) for d in [n for n in A.walk_body(se.node) if isinstance(n, ast.Dict)] for v in d.values) and \
-        "encode_versioned_data_source_key" in A.norm(se.node)
+    encn = any(".name" in A.norm(v) for v in enc_values) and "encode_versioned_data_source_key" in A.norm(se.node)
     ck.ob(R, de.key(None, "entry-codecs"), okc and encn, "type is written by name and read by name; keys use the versioned-key codec both ways" if okc and encn else
           "index entry encoding and decoding do not use matching codecs", de.where())
 
